@@ -243,7 +243,7 @@ func RunStream(op *pipew.Op, o StreamOpts) *pipew.OpResult {
 			return finishEOS("abandon")
 		}
 		res.Sent++
-		body := ContBody(cursor, call, false, []int64{int64(k + 1), int64(10 * (k + 1))}, op.Cast, meta(k))
+		body := ContBody(cursor, call, false, op.InputValues(k), op.Cast, meta(k))
 		ct := post("exchange", "/"+op.Method+"/exchange", body)
 		if ct.Resp.Panicked != nil {
 			res.ClientErr = fmt.Errorf("exchange: connection aborted (panic: %v)", ct.Resp.Panicked)
